@@ -10,17 +10,174 @@ TECH = 'deterministic simulation: seeded scheduler over a pool of live ' \
        'tables, suspended readers and storage, with fault injection, checked ' \
        'against a dense reference model; ddmin-minimised replayable event lists'
 
+def _c(text, note, tech, cat='exploration'):
+    return (cat, text, note, tech)
+
+
+_WORLD_NOTE = ('trusts the dense reference model in sim/ (written from the '
+               'property text); bounds: tables <= 6x6 (thorough up to 12x12), '
+               '<= 60 events per run, pool <= 6 tables, <= 4 suspended readers; '
+               'compiled .pyx kernels cannot be rebuilt here')
+_SAMPLING = ' Sampling over seeds, not proof: a clean batch is evidence.'
+
 CLAIMED = {
-    # id: (category, text, note, technique-suffix)
-    'C05': ('exploration',
-            'Seeded operation/read/reader-step histories over up to 6 live '
-            'tables; after every event every table is checked for coherence '
-            '(shape vs ids, unique ids, index/exists agreement incl. an absent '
-            'id, metadata length) and every scheduled accessor is compared '
-            'with a dense reference model. Sampling, not proof.',
-            'trusts the reference model in sim/; bounds: tables <= 6x6 '
-            '(thorough 12x12), <= 60 events per run',
-            'coherence invariants after every event + accessor-vs-model'),
+    'C01': _c('Seeded histories (ops, layout perturbations) then write through '
+              'to_hdf5 / save_table / biom_open with compress on/off and '
+              'explicit or clock-defaulted creation date, reload through '
+              'load_table(path), parse_table(handle), from_hdf5 on both axes, '
+              'compare ids, bit-exact matrix, metadata, type, id placeholder, '
+              'generated-by, date, group-metadata payload with the model; '
+              'reloaded tables keep living in the pool.' + _SAMPLING,
+              _WORLD_NOTE + '; no storage faults injected (no property says '
+              'what a failed HDF5 write must leave)',
+              'HDF5 round-trip probe after simulated histories'),
+    'C02': _c('Histories then to_json (string and direct_io stream, explicit '
+              'or simulated-clock date, header strings with quotes / '
+              'backslashes / controls): json.loads must accept it, an '
+              'independent BIOM-1.0 decoder must give the model, six library '
+              'read routes (dict, StringIO, split lines, handle at offset, '
+              'path, gzip) must give the model, stream == string as documents; '
+              'stream write faults (ENOSPC on k-th write) must not be '
+              'swallowed.' + _SAMPLING, _WORLD_NOTE,
+              'JSON probe + stream fault injection'),
+    'C03': _c('Histories then to_tsv / str / direct_io export (optionally one '
+              'observation-metadata category through a formatter) and import '
+              'through from_tsv (lines, StringIO, handle), load_table (path, '
+              'gzip) and biom convert both ways; ids in order and exact '
+              'matrix (and the category) must equal the model.' + _SAMPLING,
+              _WORLD_NOTE + '; ids restricted to the quantifier\'s TSV-safe '
+              'domain', 'TSV probe after simulated histories'),
+    'C04': _c('Histories then write (to_hdf5, save_table, biom_open, biom '
+              'convert), incl. 0xM and Nx0 tables; an independent decoder '
+              '(raw h5py, written from biom-2.1.rst) checks attributes, '
+              'groups, datasets, dtypes, shape, nnz, both CSR and CSC copies '
+              '(indptr length/monotone/end, index range, no stored zeros) and '
+              'that both decode to the model matrix.' + _SAMPLING,
+              _WORLD_NOTE, 'independent spec decoder on files written after '
+              'simulated histories'),
+    'C05': _c('Seeded operation/read/reader-step histories over up to 6 live '
+              'tables; after every event every table is checked for coherence '
+              '(shape vs ids, unique ids, index/exists agreement incl. an '
+              'absent id, metadata length) and every scheduled accessor '
+              '(data, cell, iter, iter_pairwise, nonzero, sums, nnz, density) '
+              'incl. suspended generators stepped between other events is '
+              'compared with the dense model; callback faults (F1), unknown '
+              'ids (F2).' + _SAMPLING, _WORLD_NOTE,
+              'coherence invariants after every event + accessor-vs-model'),
+    'C06': _c('sort (natsort re-implemented independently, custom sort '
+              'functions), sort_order (all permutations of short axes by '
+              'Lehmer codes), align_to (4 modes), transpose, copy, update_ids '
+              '(lengthening, shortening, rotating, colliding, partial) after '
+              'arbitrary histories; result must equal the model permutation / '
+              'relabelling incl. metadata; inverse pairs restore content; '
+              'unknown ids refused without change.' + _SAMPLING, _WORLD_NOTE,
+              'reorder/rename ops vs model after simulated histories'),
+    'C07': _c('Pool kept full so receivers, arguments and results coexist and '
+              'keep being mutated in place; after every event every bystander '
+              'table must equal its model (aliasing shows here); ops with an '
+              'inplace flag are run both ways from the same state (result '
+              'equal, receiver untouched, in-place returns self); callback '
+              'faults must leave inputs of non-in-place ops untouched.'
+              + _SAMPLING, _WORLD_NOTE,
+              'bystander invariants + in-place/non-in-place twin execution'),
+    'C08': _c('filter by id collections (list/tuple/set/array/dict keys, any '
+              'order, invert, both axes, in place or not) and by instrumented '
+              'predicates (call log: once per id, in order, true dense vector, '
+              'id, metadata), remove_empty, head, after histories biased to '
+              'reorderings (unsorted indices); unknown ids must raise and '
+              'change nothing; predicate faults at every invocation index.'
+              + _SAMPLING, _WORLD_NOTE,
+              'filter ops vs model + predicate call-log oracle'),
+    'C09': _c('merge of pairs / k-tuples with forced overlap patterns, four '
+              'union/intersection combinations, metadata on neither/either/'
+              'both, default / custom / None metadata functions, fast and '
+              'general path; id sets, per-pair sums, grand total, per-id '
+              'metadata vs model; operands unchanged.' + _SAMPLING,
+              _WORLD_NOTE, 'merge vs model after simulated histories'),
+    'C10': _c('concat of k>=1 operands (made disjoint by recorded renamings) '
+              'with identical / permuted / partially missing / disjoint other '
+              'axis, both axes, method / biom.concat / single table; blocks, '
+              'zero padding, metadata travel, exact grand total (fsum); '
+              'overlapping ids must raise and change nothing.' + _SAMPLING,
+              _WORLD_NOTE, 'concat vs model after simulated histories'),
+    'C11': _c('partition (function, both dict forms, remove_empty, '
+              'ignore_none, list-valued labels; consumed at once or as a '
+              'suspended generator stepped between other events) and collapse '
+              '(one-to-one with norm / min_group_size / custom collapse_f, '
+              'one-to-many add/divide) vs model: exact membership, vectors, '
+              'metadata, collapsed_ids, conservation of totals.' + _SAMPLING,
+              _WORLD_NOTE, 'partition/collapse vs model incl. reader tasks'),
+    'C12': _c('subsample on count tables after histories, both axes, with / '
+              'without replacement, by_id, seeds from the PRNG: per-call '
+              'invariants (sums == n, integer entries <= original, exactly the '
+              'ids with total >= n, emptied other-axis vectors dropped, same '
+              'seed same table, input untouched) plus outcome frequencies over '
+              '400 (thorough 4000) seeds against exact hypergeometric / '
+              'multinomial / uniform-subset laws at 6 sigma.' + _SAMPLING,
+              _WORLD_NOTE + '; a change only in _subsample.pyx is invisible',
+              'per-call invariants + seed-swept distribution test'),
+    'C13': _c('transform with instrumented element-wise / vector-wise / '
+              'zeroing functions (call log: exactly the non-zero values, id, '
+              'metadata), norm, pa, rankdata (5 tie methods, independent rank '
+              'implementation), both axes, in place or not, element-wise '
+              'agreement across axes, normalize-table; after CSR/CSC flips and '
+              'reorderings; function faults at every invocation index.'
+              + _SAMPLING, _WORLD_NOTE,
+              'transform ops vs model + function call-log oracle'),
+    'C14': _c('files written from pool tables, non-empty id subsets in any '
+              'order, both axes: from_hdf5 default and metadata-free, '
+              'parse_table(ids=) on JSON handle/lines, subset-table on HDF5 '
+              'and on JSON text as written / compact / spaced / indented '
+              '(lazy generator stepped to the end) vs load-all-then-filter in '
+              'the model; unknown ids must be refused.' + _SAMPLING,
+              _WORLD_NOTE, 'subset-on-read probe vs model filter'),
+    'C15': _c('For files written from pool tables (JSON and HDF5): validator '
+              'must accept; then ALL single mutations of the corruption '
+              'grammar are applied per JSON file (HDF5: all per file in the '
+              'thorough tier and every third probe, a deterministic third '
+              'otherwise) plus sampled pairs; an independent classifier decides '
+              'from the final file which listed corruption classes it has; any '
+              'class present => validator must not say valid; accepted numeric '
+              'JSON must load with declared shape/ids/values.',
+              _WORLD_NOTE + '; classifier in sim/probes_c15.py shares no code '
+              'with the validator',
+              'fault enumeration over a structural mutation grammar of stored '
+              'files', 'fault_enumeration'),
+    'C16': _c('twins built from one model state through different constructor '
+              'routes / layouts / histories, a PRNG-chosen interleaving of '
+              'read accessors (nnz, data, iter, ==, nonzero, sum) incl. '
+              'suspended readers, then ==, !=, descriptive_equality both ways, '
+              'reflexive/symmetric/transitive on triples, copy; equal tables '
+              'must export equal TSV/JSON/HDF5 content and answer queries '
+              'identically; single-difference pairs must be unequal.'
+              + _SAMPLING, _WORLD_NOTE,
+              'twin blocks with interleaved read accessors'),
+    'C18': _c('add_metadata with mappings over sub/supersets of the ids, '
+              'del_metadata with key subsets on sample/observation/whole, '
+              'interleaved with the whole alphabet (bystanders sharing '
+              'metadata history must not change); mapping files generated from '
+              'a row grammar parsed by MetadataMap.from_file (lines, handle, '
+              'path; conversions, header overrides) vs an independent parser, '
+              'applied through add-metadata.' + _SAMPLING, _WORLD_NOTE,
+              'metadata ops vs model + mapping-file grammar'),
+    'C19': _c('sum, min/max, nonzero_counts, density, reduce, per-sample '
+              'stats, to_dataframe, metadata_to_dataframe as scheduled read '
+              'events; summarize-table text (3 modes) parsed line by line; '
+              'table-ids, head, export-metadata callbacks; all vs the dense '
+              'model on asymmetric tables in varied layouts.' + _SAMPLING,
+              _WORLD_NOTE + '; locale pinned to C (only one installed)',
+              'summary accessors and CLI reports vs model'),
+    'C20': _c('Generated programs over seterr / seterrcall / errstate (nested, '
+              'all=, invalid kinds/reactions, exit normally or by raising) / '
+              'try / probes that trip exactly one kind through real table '
+              'operations; each program is run fault-free and once per '
+              'statement position with an exception injected there; after '
+              'every statement the profile and callbacks must equal a scoped '
+              'stack model and each probe must react as the model says.',
+              'LIFO use of errstate only; sampling over programs, exhaustive '
+              'over fault positions of each program',
+              'fault enumeration: exception at every statement position of '
+              'generated configuration programs', 'fault_enumeration'),
 }
 
 NOT_YET = 'check not built yet in this session (planned, see DESIGN.md 6)'
@@ -39,7 +196,7 @@ def main():
     for pid in ALL:
         if pid not in CLAIMED:
             continue
-        cat, text, note, tech = CLAIMED[pid]
+        cat, text, note, tech = CLAIMED[pid][0], CLAIMED[pid][1], CLAIMED[pid][2], CLAIMED[pid][3]
         checks.append({
             'property_id': pid,
             'quick_cmd': '/venv/bin/python bin/check.py %s --tier quick' % pid,
@@ -47,7 +204,7 @@ def main():
                             % pid,
             'evidence_file': '/verif/evidence/%s.json' % pid,
             'replay_cmd_template': '/venv/bin/python bin/replay.py {path}',
-            'engine': 'tableworld',
+            'engine': 'c20programs' if pid == 'C20' else 'tableworld',
             'level_claimed': {'category': cat, 'text': text,
                               'design_ref': 'DESIGN.md section 6 (%s)' % pid},
             'level_note': note,
@@ -74,8 +231,14 @@ def main():
             'add_only': True,
         },
         'engines': [{
+            'name': 'c20programs', 'path': 'sim/c20.py',
+            'serves_properties': ['C20'],
+            'kind_free_text': 'program generator + recursive interpreter with '
+                              'real with/try, exception injected at every '
+                              'statement position, scoped-stack model',
+        }, {
             'name': 'tableworld', 'path': 'sim/',
-            'serves_properties': sorted(CLAIMED),
+            'serves_properties': sorted(p for p in CLAIMED if p != 'C20'),
             'kind_free_text': 'in-process deterministic simulator: seeded '
                               'scheduler, dense reference model, fault '
                               'injection, ddmin shrinker, replay files',
